@@ -605,7 +605,15 @@ class Interp:
         if ck == 'ArrayToPointerDecay':
             if sub['kind'] == 'StringLiteral':
                 return self.ev(sub, st)
-            return [(s, self.addr_of(s, lv)) for s, lv in self.lv(sub, st)]
+            qt = e.get('type', {}).get('qualType', '').replace('const ', '').strip()
+            if qt in ('char *', 'unsigned char *', 'signed char *', 'void *'):
+                # character buffers are kept as one abstract string object
+                return [(s, self.addr_of(s, lv)) for s, lv in self.lv(sub, st)]
+            # other arrays decay to a pointer to their first element, so that pointer walks (p++, *p) address elements
+            out = []
+            for s, (loc, path) in self.lv(sub, st):
+                out.append((s, self.addr_of(s, (loc, path + '[0]'))))
+            return out
         if ck in ('FunctionToPointerDecay', 'BuiltinFnToFnPtr'):
             return self.ev(sub, st)
         if ck == 'NullToPointer':
